@@ -7,6 +7,7 @@ import json
 import os
 import random
 
+import c02_modules
 import c02_universe as U
 import impl
 import lib
@@ -683,6 +684,10 @@ def search(run: lib.Run, broken):
         for f in fs:
             clauses[f["clause"]] += 1
         fails += fs
+    # the same bare string reference issued from several modules in one process (histories, no cache clearing)
+    nmod, mod_fails = c02_modules.check(full=(run.tier == "thorough" or bool(broken)))
+    for f in mod_fails:
+        clauses[f["clause"]] += 1
     # shrink: per (clause, symptom, head, config) keep the smallest case
     best = {}
     for f in fails:
@@ -690,11 +695,11 @@ def search(run: lib.Run, broken):
         size = (len(f["source"]) + len(f["texpr"]) + len(f["vexpr"]), f["config"] != "default")
         if k not in best or size < best[k][0]:
             best[k] = (size, f)
-    out = [v[1] for v in sorted(best.values(), key=lambda v: v[0])]
+    out = [v[1] for v in sorted(best.values(), key=lambda v: v[0])] + mod_fails[:3]
     for k, v in law.items():
         run.laws["oracle:" + k] = v
     run.search_stats["oracle"] = {
-        "evaluations": nev, "distinct_nontrivial": nrt, "structured_sweep_cases": len(sweep),
+        "evaluations": nev + nmod, "distinct_nontrivial": nrt, "structured_sweep_cases": len(sweep), "string_ref_module_histories": nmod,
         "structured_sweep": "every structured flavour (dataclass plain/slots/frozen/kw_only, NamedTuple, TypedDict total/non-total, "
                             "annotated plain class, __slots__ class) x member kinds whose marshalled form differs from the value "
                             "(Decimal, Fraction, UUID, Path, date, datetime, time, timedelta, enum, nested structured of 4 flavours, "
@@ -715,6 +720,8 @@ def search(run: lib.Run, broken):
 # ----------------------------------------------------------------------------------
 
 def replay(payload):
+    if payload.get("kind") == "c02-string-ref-modules":
+        return c02_modules.replay(payload)
     case = {k: payload[k] for k in ("source", "texpr", "vexpr")}
     for k in ("inq", "c01_safe", "union", "bytes_t", "head"):
         case[k] = payload.get(k)
